@@ -9,6 +9,7 @@ import (
 	"go/constant"
 	"go/token"
 	"go/types"
+	"os"
 	"sort"
 	"strings"
 
@@ -761,6 +762,9 @@ func ruleRecFiltered(p *Prog, r *Report, floor int, extra map[string]recJust, on
 			}
 		}
 		if ok {
+			if os.Getenv("VSA_DEBUG_REC") != "" {
+				fmt.Printf("REC %s: %s\n", key, how)
+			}
 			r.OK(rule, key, pos, fmt.Sprintf("%d function(s), %d recursive edge(s): %s", len(s.fns), len(s.edges), how))
 		} else {
 			r.Bad(rule, key, pos, fmt.Sprintf("recursion over %d function(s) has no structural termination argument (depth guard whose exhausted edge cannot reach the recursive call, consume-marker, progress, or well-founded table)", len(s.fns)), path...)
